@@ -190,7 +190,17 @@ def gen_graph(rng, gname, max_nodes=8, shapes=None, allow_cond=True):
             for extra, prefix in enumerate(("m", "k")[:rng.choice([1, 1, 2])]):
                 nm = _Namer(prefix)
                 nodes2, cin2, cout2 = _cond_block(rng, nm, 1 if rng.random() < 0.25 else 0, [6], blocks=blocks)
-                _find(nodes, cout).setdefault("children", []).append(cin2)
+                prev = _find(nodes, cout)
+                if prev.get("terminal") and not prev.get("children") and rng.random() < 0.35:
+                    # the join of the previous conditional IS the next conditional (one node, both flags)
+                    head = _find(nodes2, cin2)
+                    nodes2.remove(head)
+                    prev["conditional"] = True
+                    prev["children"] = list(head["children"])
+                    blocks[-1]["cond"] = cout
+                    blocks[-1]["fused_with_previous_join"] = True
+                else:
+                    prev.setdefault("children", []).append(cin2)
                 nodes += nodes2
                 cout = cout2
                 if rng.random() < 0.4:
@@ -372,6 +382,30 @@ def gen_clockwork_world(seed, index, **over):
             gd["graph"] = [_node("n1", work_profile=gd["graph"][0]["work_profile"])]
         for prof in profiles[1:]:
             prof["execution_strategies"] = [dict(e) for e in profiles[0]["execution_strategies"]]
+    if over.get("small_burst"):
+        # a burst small enough for the size-limited solver licences: one worker, one or two models, three to five requests
+        # per model released together with equal deadlines and not enough room to run them all at once (used with the
+        # batching planners, whose candidate batches are formed from sets of tasks)
+        cluster = [{"name": "Pool_0", "workers": [{"name": "W_0_0", "resources": [{"name": "GPU", "quantity": 1},
+                                                                                     {"name": "RAM", "quantity": 8}]}]}]
+        burst = random.Random(seed_int("burst", seed, index))
+        profiles = profiles[:burst.choice([1, 1, 2])]
+        graphs = graphs[:len(profiles)]
+        while len(graphs) < len(profiles):
+            graphs.append({"name": f"G{len(graphs)}", "graph": [], "shape": "single", "blocks": []})
+        for g, gd in enumerate(graphs):
+            gd["release_policy"] = "fixed"
+            gd["period"] = 0
+            gd["invocations"] = burst.randint(3, 4) if len(profiles) == 1 else 3
+            gd["start"] = 0
+            gd.pop("rate", None)
+            gd.pop("concurrency", None)
+            gd["deadline_variance"] = [300, 300]
+            gd["graph"] = [_node("n1", work_profile=profiles[g]["name"])]
+        for prof in profiles:
+            if all(e["batch_size"] == 1 for e in prof["execution_strategies"]):
+                prof["execution_strategies"].append({"batch_size": 2, "runtime": prof["execution_strategies"][0]["runtime"] + 1,
+                                                     "resource_requirements": {"GPU:any": 1}})
     workload = {"graphs": [{k: v for k, v in g.items() if k not in ("shape", "blocks")} for g in graphs],
                 "profiles": profiles}
     flags = {
@@ -465,7 +499,19 @@ def gen_world(seed, index, profile="greedy", **over):
         gd["deadline_variance"] = list(rng.choice(
             over.get("deadline_variances", [(0, 0), (0, 50), (10, 100), (50, 200), (500, 500), (1000, 2000)])))
         graphs.append(gd)
-    workload = {"graphs": [{k: v for k, v in g.items() if k not in ("shape", "blocks")} for g in graphs],
+    # the order in which a description lists its nodes is free (children may come before their parents): top-down as
+    # generated, reversed, by name or shuffled.  Own stream, so that the other dimensions of a world do not move.
+    orng = random.Random(seed_int("listing-order", seed, index, profile))
+    for g in graphs:
+        how = orng.choice(["asis", "asis", "asis", "reversed", "byname", "shuffled"])
+        if how == "reversed":
+            g["graph"] = list(reversed(g["graph"]))
+        elif how == "byname":
+            g["graph"] = sorted(g["graph"], key=lambda n: n["name"])
+        elif how == "shuffled":
+            orng.shuffle(g["graph"])
+        g["listing"] = how
+    workload = {"graphs": [{k: v for k, v in g.items() if k not in ("shape", "blocks", "listing")} for g in graphs],
                 "profiles": profiles}
 
     flags = gen_flags(rng, profile, over)
@@ -487,7 +533,7 @@ def gen_world(seed, index, profile="greedy", **over):
         "seed": seed, "index": index, "profile": profile,
         "cluster": cluster, "workload": workload, "flags": flags,
         "fmt": rng.choice(["yaml", "yaml", "json"]),
-        "meta": {"feasible_intent": feasible, "shapes": [g["shape"] for g in graphs],
+        "meta": {"feasible_intent": feasible, "shapes": [g["shape"] for g in graphs], "listing": [g["listing"] for g in graphs],
                  "blocks": {g["name"]: g["blocks"] for g in graphs},
                  "zero_runtime": zero_rt},
     }
